@@ -256,19 +256,41 @@ class Consumer:
         return "other", w, st
 
 
-def _cf_row(c: Consumer, e: ast.expr) -> Optional[tuple[int, Optional[ast.expr]]]:
-    """cf[r] | cf[r, :] | cf[r, mask] -> (r, mask or None)."""
-    if not (isinstance(e, ast.Subscript) and isinstance(e.value, ast.Name) and e.value.id == c.cf):
+def _cf_row(c: Consumer, e: ast.expr, at: ast.stmt) -> Optional[tuple[int, Optional[ast.expr]]]:
+    """cf[r] | cf[r, :] | cf[r, mask] | cf[r][mask], also through temporaries holding a row -> (r, mask or None)."""
+    f = c.f
+
+    def rooted(x: ast.expr, depth: int = 4) -> Optional[ast.expr]:
+        """x rewritten so that it is a subscript chain on the dense array itself, or None"""
+        if isinstance(x, ast.Name):
+            if x.id == c.cf:
+                return x
+            v = f.unique_plain(x.id, at) if depth > 0 else None
+            return rooted(v, depth - 1) if isinstance(v, (ast.Subscript, ast.Name)) else None
+        if isinstance(x, ast.Subscript):
+            b = rooted(x.value, depth)
+            return ast.Subscript(value=b, slice=x.slice, ctx=ast.Load()) if b is not None else None
         return None
-    sl = e.slice
-    if isinstance(sl, ast.Tuple) and len(sl.elts) == 2 and _const_int(sl.elts[0]) is not None:
-        second = sl.elts[1]
-        if isinstance(second, ast.Slice) and second.lower is None and second.upper is None and second.step is None:
-            return _const_int(sl.elts[0]), None  # type: ignore[return-value]
-        return _const_int(sl.elts[0]), second  # type: ignore[return-value]
-    if _const_int(sl) is not None:
-        return _const_int(sl), None  # type: ignore[return-value]
-    return None
+
+    r = rooted(e)
+    if r is None or isinstance(r, ast.Name):
+        return None
+    idx: list[ast.expr] = []
+    x = r
+    chain = []
+    while isinstance(x, ast.Subscript):
+        chain.append(x.slice)
+        x = x.value
+    for sl in reversed(chain):
+        idx += list(sl.elts) if isinstance(sl, ast.Tuple) else [sl]
+    if not idx or _const_int(idx[0]) is None or len(idx) > 2:
+        return None
+    if len(idx) == 1:
+        return _const_int(idx[0]), None  # type: ignore[return-value]
+    second = idx[1]
+    if isinstance(second, ast.Slice) and second.lower is None and second.upper is None and second.step is None:
+        return _const_int(idx[0]), None  # type: ignore[return-value]
+    return _const_int(idx[0]), second  # type: ignore[return-value]
 
 
 def check_consumer(ctx: Ctx, P: dict) -> None:
@@ -282,7 +304,7 @@ def check_consumer(ctx: Ctx, P: dict) -> None:
     ups: dict[str, list] = {}
     for nm, ds in f.defs.items():
         for d in ds:
-            if d.kind == "sub" and isinstance(d.stmt, ast.Assign) and d.value is not None and _cf_row(c, d.value) is not None:
+            if d.kind == "sub" and isinstance(d.stmt, ast.Assign) and d.value is not None and _cf_row(c, d.value, d.stmt) is not None:
                 ups.setdefault(nm, []).append(d)
     if len(ups) != 1:
         raise AnchorError(f"{UPWIND}:{Q_DISC}: expected one array filled from rows of {c.cf}, found {sorted(ups)}")
@@ -290,7 +312,7 @@ def check_consumer(ctx: Ctx, P: dict) -> None:
     seen = set()
     for d in ups[up_name]:
         t = d.stmt.targets[0]  # type: ignore[attr-defined]
-        row, rmask = _cf_row(c, d.value)  # type: ignore[misc]
+        row, rmask = _cf_row(c, d.value, d.stmt)  # type: ignore[misc]
         if not (isinstance(t, ast.Subscript) and isinstance(t.value, ast.Name)) or rmask is None:
             raise c.und("upstream store is not  up[mask] = cf[row, mask]", d.stmt)
         k = c.flux_mask(t.slice, d.stmt)
@@ -367,12 +389,14 @@ def check_consumer(ctx: Ctx, P: dict) -> None:
         if kr is not None and isinstance(kr.args[0], ast.Call) and call_name(kr.args[0]) in ("eye", "identity"):
             mexpr = kr.args[1]
         st = at
-        if isinstance(mexpr, ast.Name):
-            d = f.unique_def(mexpr.id, at)
-            if d is None or d.kind != "plain":
-                raise c.und("stored matrix has no unique definition", e)
-            mexpr, st = d.value, d.stmt  # type: ignore[assignment]
         coo = strip_conv(mexpr)
+        for _ in range(4):  # temporaries and format conversions between the constructor and the store
+            if not isinstance(coo, ast.Name):
+                break
+            d = f.unique_def(coo.id, st)
+            if d is None or d.kind != "plain" or d.value is None:
+                raise c.und("stored matrix has no unique definition", e)
+            coo, st = strip_conv(d.value), d.stmt
         if not (isinstance(coo, ast.Call) and call_name(coo) in ("coo_matrix", "csr_matrix", "csc_matrix", "coo_array") and coo.args
                 and isinstance(coo.args[0], ast.Tuple) and len(coo.args[0].elts) == 2 and isinstance(coo.args[0].elts[1], ast.Tuple)
                 and len(coo.args[0].elts[1].elts) == 2):
@@ -469,7 +493,7 @@ def check_consumer(ctx: Ctx, P: dict) -> None:
         if len(mk) != 1 or len(ext) != 1 or mk[0] not in ("pos", "neg"):
             raise c.und("alternative of the inflow test is not  <flux mask> and <exterior test>", w)
         cz = _cmp_zero(ext[0][1])
-        cr = _cf_row(c, cz[0]) if cz is not None else None
+        cr = _cf_row(c, cz[0], ext[0][2]) if cz is not None else None
         if cz is None or cr is None or cr[1] is not None:
             raise c.und("exterior test is not a comparison of a whole row of the dense cell-face array with a literal", ext[0][1])
         k = mk[0]
